@@ -58,7 +58,7 @@ SUITES = {
     "C05": {
         "quick": [("km", ["st_remove__s8_8g0", "st_remove__s8_8g4", "st_raw_replace_with__s8_8g0", "st_raw_replace_with__s8_8g4",
                           "rt_retain__s8_8g0", "rt_drain_filter__s8_8g0_m1110_end", "rt_drain_filter__s8_4a_m0111_end",
-                          "zst_remove__old", "zst_remove__old2", "zst_retain__old", "en_occ_remove__s8_8g4", "en_occ_replace_with__s8_8g0",
+                          "zst_remove__old", "zst_remove__old2", "en_occ_remove__s8_8g4", "en_occ_replace_with__s8_8g0",
                           "it_drain__s8_8g4_j1", "it_into_iter__s8_8g4_j1", "st_insert__s8_8g4"]),
                   ("km-rel", ["st_raw_replace_with__s8_8g0", "st_remove__s8_8g0"])],
         "thorough": [("km", ["st_*", "rt_*", "zst_*", "en_occ_*", "it_drain__*", "it_into_iter__*", "pan_raw_*"]),
@@ -78,8 +78,8 @@ SUITES = {
         "quick": [("km", ["rt_retain__s8_4a", "rt_retain__s8_8g0", "rt_retain__s8_e", "rt_retain__u8_3t",
                           "rt_drain_filter__s8_4a_m0111_end", "rt_drain_filter__s8_4a_m1100_end", "rt_drain_filter__s8_4a_m1010_j1",
                           "rt_drain_filter__s8_4a_m1101_j2f", "rt_drain_filter__s8_8g0_m1110_end", "rt_drain_filter__s8_8g4_m101_j1",
-                          "rt_drain_filter__u8_3t_m101_end", "rt_drain_filter__s8_e_m010_end", "zst_retain__old"])],
-        "thorough": [("km", ["rt_*", "zst_retain__*"])],
+                          "rt_drain_filter__u8_3t_m101_end", "rt_drain_filter__s8_e_m010_end", "se_retain__s8_8g0"])],
+        "thorough": [("km", ["rt_*", "se_retain__*"])],
     },
     "C10": {
         "quick": [("km-cnt", ["cnt_reserve__split", "cnt_reserve__unsplit", "cnt_try_reserve__split", "cnt_try_reserve__unsplit",
@@ -95,6 +95,29 @@ SUITES = {
                           "en_raw_insert__u4f", "en_raw_or_insert__u4f", "en_raw_and_modify__s8_8g0", "en_raw_vacant_hashed__s8_4a",
                           "en_raw_occ_misc__s8_8g4", "st_raw_replace_with__s8_8g4"])],
         "thorough": [("km", ["en_*", "st_raw_replace_with__*"])],
+    },
+    "C06": {
+        "quick": [("km", ["dr_insert__s8_4a", "dr_insert__u4f", "dr_remove__s8_4one", "dr_remove__s8_8g4", "dr_clear_drop__s8_8g4", "dr_clear_drop__s8_e",
+                          "dr_retain__s8_8g0", "dr_drain__s8_4a_j1", "dr_drain__s8_4a_end", "dr_drain__s8_4a_j2f", "dr_into_iter__s8_4a_j1", "dr_into_iter__s8_8g4_end",
+                          "dr_drain_filter__s8_4a_m1101_j1", "dr_entry_replace_entry__s8_8g0", "dr_entry_replace_key__s8_8g0", "dr_entry_replace_with__s8_8g0",
+                          "dr_entry_remove__s8_8g4", "dr_clone__s8_4a", "it_into_iter__s8_4a_j1"])],
+        "thorough": [("km", ["dr_*", "it_into_iter__*"])],
+    },
+    "C11": {
+        "quick": [("km", ["cl_clone__s8_4a", "cl_clone__s8_8g4", "cl_clone__u8_3t", "cl_clone__s8_e", "cl_clone_from__s8_4a__s8_4a", "cl_clone_from__s8_4a__u0",
+                          "cl_clone_from__u8_3t__s8_8g4", "cl_clone_from__s8_8g4__u4f", "cl_clone_from__u0__s8_4a", "cl_clone_from__s8_e__s8_e", "dr_clone__s8_8g4"])],
+        "thorough": [("km", ["cl_*", "dr_clone__*"])],
+    },
+    "C13": {
+        "quick": [("km", ["se_insert__s8_4a", "se_remove__s8_8g0", "se_remove__s8m0_4a", "se_take__s8_4one", "se_take__s8m0_4a", "se_get__s8_8g4",
+                          "se_get_or_insert__u4f", "se_get_or_insert_with__s8_8g4", "se_retain__s8_8g0", "se_clear__s8_8g4", "se_extend1__s8_4a",
+                          "se_iter__s8_8g4", "se_drain__s8_4a", "se_union__c_f", "se_union__a_e", "se_intersection__c_a", "se_intersection__a_c",
+                          "se_difference__c_a", "se_difference__a_e", "se_symdiff__c_f", "se_ops__e_c", "se_preds__c_a"])],
+        "thorough": [("km", ["se_*"])],
+    },
+    "C14": {
+        "quick": [("km", ["eq_same__s8_4a__u", "eq_differ__s8_4a__u", "eq_differ__u__s8_8g0", "eq_transitive"])],
+        "thorough": [("km", ["eq_*", "se_preds__*"])],
     },
     "C17": {
         "quick": [("km-rel", ["st_raw_replace_with__s8_8g0", "st_insert__s4f_e", "st_remove__s8_8g0", "cap_try_reserve__s8_e", "zst_remove__old2", "it_drain__s8_4a_j1"]),
